@@ -508,7 +508,9 @@ def exec_a(sc, ctx):
                             real = None
                     if real is not None and (oc.kind != "ret" or oc.value != real):
                         bad2 = "get_content: %s %r, file holds %r" % (oc.brief(), oc.value, real)
-                if bad2 is None and "d" not in m and kind in ("file", "link-file", "dir", "link-dir"):
+                # (not for spellings with '..': the context directory is normalised lexically, which differs from the
+                # kernel's view when '..' follows a symlink - the statement does not say which is meant)
+                if bad2 is None and "d" not in m and ".." not in sp and kind in ("file", "link-file", "dir", "link-dir"):
                     def _ctx():
                         with pobj.relative_path_context() as d:
                             return d, os.getcwd()
